@@ -13,6 +13,7 @@ func main() {
 	seed := flag.Uint64("seed", 1, "PRNG seed")
 	n := flag.Int("n", 100, "number of cases")
 	only := flag.Int("only", -1, "generate only this case index")
+	start := flag.Int("start", 0, "first case index (shards of one run use disjoint index ranges)")
 	out := flag.String("out", "", "output file for protocol lines")
 	tier := flag.String("tier", "quick", "quick|thorough")
 	flag.Parse()
@@ -39,7 +40,7 @@ func main() {
 	if *only >= 0 {
 		run(*only)
 	} else {
-		for i := 0; i < *n; i++ {
+		for i := *start; i < *start+*n; i++ {
 			run(i)
 		}
 	}
